@@ -184,7 +184,11 @@ def r2_r3(ctx):
     p = Prov(b, facts)
     g = Guards(b, p, facts)
     tsn = local_named(b, "to_send_nodes")
-    idx = local_named(b, "rpc_index")
+    try:
+        idx = local_named(b, "rpc_index")
+    except AnchorError:
+        # no packet counter at all: `total` must then be the number of packets itself (`to_send_nodes.len()`, checked under total|formula)
+        idx = None
     acc = local_named(b, "total_size")
     heads = c13.loop_heads(b)
     # the split loop head: the one from which the encode call is reachable without leaving
@@ -239,6 +243,10 @@ def r2_r3(ctx):
                     incs.append(blk.idx)
                 else:
                     r2.fail("index|update", "rpc_index is updated by %s" % fmt_short(p.rvalue(s.rv, blk.idx)), loc=b.loc(s.line))
+    # the first packet may also be the initial content of the vector (`vec![Vec::new()]`)
+    init_tsn = canon(p.local(tsn))
+    if not before and any(x[0] == "agg" and x[1] == "array" and len(x[2]) == 1 for x in walk(init_tsn)):
+        before = [0]
     r2.check(len(before) == 1, "exactly one packet is opened before the loop (index 0)", "packets|initial", "%d packets are opened before the split loop" % len(before), loc=b.loc(b.line))
     # per-iteration conservation
     def transfer(bidx, st):
@@ -257,6 +265,8 @@ def r2_r3(ctx):
                 yield s_, (d, True)
     states, exits, parent = propagate(b, (0, False), transfer, start=H)
     deltas = sorted(set(st[0] for _, _, st in exits))
+    if idx is None:
+        deltas, incs = [0], ["(no counter: total is the vector's length)"]
     r2.check(deltas == [0] and inside and incs, "per iteration: #packets opened - #index increments = 0 on every path (%d open sites, %d increments)" % (len(inside), len(incs)),
              "packets|conservation", "in the split loop a packet can be opened without incrementing rpc_index or vice versa (per-iteration differences %s): `total` would not equal the number of packets" % deltas,
              loc=b.loc(b.line))
@@ -272,10 +282,9 @@ def r2_r3(ctx):
                     f = dict(zip(s.rv.j["fields"], [cp.operand(o) for o in s.rv.ops]))
                     if pth == b.path and const_int_of(canon(f["total"])) == 1:
                         continue        # the single-packet (empty) answer built directly
-                    idx_txt = fmt_short(p.local(idx))
                     lf = linear(f["total"], lambda x: "i" if x == ("upvar", "rpc_index") or (pth == b.path and x[0] == "phi" and "cycle" in fmt_short(x) and any(const_int_of(a) == 0 for a in x[1]) and
                                                                                               all(const_int_of(a) == 0 or "cycle" in fmt_short(a) for a in x[1])) else None)
-                    okk = lf == ({"i": 1}, 1)
+                    okk = lf == ({"i": 1}, 1) and idx is not None
                     if not okk:
                         # `total` computed outside as the number of packets itself: `to_send_nodes.len() as u64`
                         for cb2, cp2, to_caller in closures_of(facts, b):
@@ -421,6 +430,18 @@ def r2_r3(ctx):
                 return out
         return [(s_, env, cons) for s_ in t.succs()]
 
+    # `to_send_nodes.last_mut()` is never None: the vector starts with one packet and is only ever pushed to
+    nonempty_edges = set()
+    tal = aliases_of(b, tsn)
+    shrinks = [bi for bi, t in b.calls() if t.args and t.args[0].place is not None and t.args[0].place.local in tal and
+               callee_matches(t, r"Vec::<.*>::(pop|clear|truncate|remove|swap_remove|drain|retain|retain_mut|split_off|dedup\w*|set_len)$",
+                              r"Vec::(pop|clear|truncate|remove|swap_remove|drain|retain|retain_mut|split_off|dedup\w*|set_len)$", r"mem::(take|replace|swap)$")]
+    if len(before) == 1 and not shrinks:
+        for sbi, st, se in g.switches():
+            if se[0] == "discr" and se[1][0] == "call" and re.search(r"slice::<impl \[T\]>::(last_mut|last|first|first_mut)$|::(last_mut|last)$", se[1][1]) and se[1][2] and \
+                    set(roots(se[1][2][0])) & set(roots(p.local(tsn))):
+                some = {tb for v, tb in st.vals if v == 1}
+                nonempty_edges |= {(sbi, tb) for tb in st.succs() if tb not in some}
     findings = set()
     seen = set()
     work = [(H, {acc: ({"A": 1}, 0)}, (), False, 0, True)]     # block, env, constraints, opened, placed, first
@@ -455,6 +476,8 @@ def r2_r3(ctx):
         if bidx in moves_item:
             p2 += 1
         for s_, e2, c2 in step_block(bidx, env, cons):
+            if (bidx, s_) in nonempty_edges:
+                continue
             work.append((s_, e2, c2, o2, p2, False))
     r3.check(n_paths > 0 and not findings, "inductive size bound: on every path of one loop iteration the record is placed once; joining the current packet implies "
              "A + E + %d <= %d and acc = A + E; a new packet starts with acc = E (%d paths)" % (overhead, mps, n_paths), "size|accumulator",
